@@ -162,6 +162,34 @@ def describe_kernel(case, obs):
     return sorted(kinds)
 
 
+# ---------------------------------------------------------------- validation of the panel size
+def gen_panel(rng, tier):
+    from . import c20
+
+    want = 40 if tier == "quick" else 600
+    for case in c20.gen(rng, "thorough"):
+        if case["violation"] not in (None, "tooFewSamples"):
+            continue
+        n = int(case["nsamp"])
+        case["no_repl"], case["only_bp"] = True, False
+        # boundary panels: exactly n-1, n, n+1 reference samples per population
+        k = rng.choice([n - 1, n, n + 1])
+        if k < 1:
+            k = n
+        case["per_pop"] = k
+        case["violation"] = "tooFewSamples" if k < n else None
+        yield case
+        want -= 1
+        if want <= 0:
+            return
+
+
+def _c20(name):
+    from . import c20
+
+    return getattr(c20, name)
+
+
 CHECK = Check(
     id="C14",
     title="--no_replacement never copies the same stretch of a reference haplotype twice",
@@ -171,6 +199,7 @@ CHECK = Check(
         "C14.grant_or_exhausted",
         "C14.disjoint_after_any_run",
         "C14.findCoordOld_refuted",
+        "C14.validate_rejects_small_panels",
     ],
     sections=[
         Section(
@@ -201,7 +230,23 @@ CHECK = Check(
             rule="seeded random sequences of 1-10 requests over 1-3 reference samples with shuffled candidate orders, issued to the real _find_random_sample with one shared registry; non-trivial = more than one request",
         ),
     ],
+        Section(
+            name="validate_panel_size",
+            theorems=["C14.validate_rejects_small_panels"],
+            gen=gen_panel,
+            impl=lambda c: _c20("impl")(c),
+            model_req=lambda c: _c20("model_req")(c),
+            model_obs=lambda c, r: _c20("model_obs")(c, r),
+            equal=lambda a, b: _c20("equal")(a, b),
+            oracle=lambda c, o: _c20("oracle")(c, o),
+            setup=lambda: _c20("setup")(),
+            teardown=lambda x: _c20("teardown")(x),
+            nontrivial=lambda c, o: C.jdump(c),
+            describe=lambda c, o: f"per_pop-minus-nsamples={c['per_pop'] - int(c['nsamp'])}",
+            rule="--no_replacement runs whose reference panel holds exactly n-1, n or n+1 samples per model population (n = simulated samples): n-1 must be refused by validate_params before anything is simulated, n and n+1 accepted (a later 'No available sample' is an error, never reuse)",
+        ),
+    ],
     trusted=["Python list/tuple semantics of haps_used"],
     assumptions=["reference-sample indices handed to _find_random_sample are inside the registry (output_vcf builds both from the same sample list)"],
-    anchors=[("haptools/sim_genotype.py", ["_find_coord", "_find_random_sample", "_convert_haplotype"])],
+    anchors=[("haptools/sim_genotype.py", ["_find_coord", "_find_random_sample", "_convert_haplotype", "validate_params"])],
 )
